@@ -21,7 +21,7 @@ def variants(prop, case):
         if ctor[0] == "rows":
             return [{"via": RVIAS[h % len(RVIAS)]}] if TIER == "quick" else [{"via": "rows"}, {"via": RVIAS[h % len(RVIAS)]}]
         if ctor[0] == "flat":
-            return [{"lkind": ["list", "shape", "array", "tuple"][h % 4]}]
+            return [{"lkind": ["list", "array", "tuple"][h % 3]}]     # a RaggedShape object is not "row lengths": see DESIGN 6.3
         return [{}]
     if op in ("getitem", "setitem"):
         sp = ["plain", "tuple", "empty"][h % 3]
